@@ -61,7 +61,7 @@ STAGES = [
           strategy=strategy,
           examples={
               "quick": 500,
-              "thorough": 6000
+              "thorough": 24000
           },
           fork=True)
 ]
